@@ -105,4 +105,10 @@ theorem history_any_changes_only_inside (o : FOps) (ops : List (Int × Nat × Va
   subst this
   exact ⟨op, hop, hle, hlt, hd⟩
 
+/-- non-vacuity of `TouchesAt`: 60 s / 300 s archives, a write at 425 s to archive 0 touches
+    the interval 300 of archive 1 -/
+example : TouchesAt [⟨0, 60, 10⟩, ⟨0, 300, 10⟩] 0 425 1 300 :=
+  ⟨⟨0, 60, 10⟩, rfl, by decide, fun h => absurd h (by decide),
+    fun _ => ⟨⟨0, 300, 10⟩, rfl, by decide⟩⟩
+
 end Wsp.C02S
